@@ -459,6 +459,27 @@ struct World
                     for (auto it = H.p->begin(); it != H.p->end(); ++it, ++cnt)
                         SIM_CHECK(it->index() == cnt, "iterator_order", "iteration yields index " << it->index() << " at position " << cnt);
                     SIM_CHECK(cnt == S, "iterator_count", "iteration visited " << cnt << " segments of " << S);
+                    // the rest of the iterator interface: arithmetic, decrement, comparison, arrow
+                    {
+                        auto b0 = H.p->begin(), e0 = H.p->end();
+                        auto it = b0 + i;
+                        SIM_CHECK((it - b0) == i && it == (b0 + i) && !(it != (b0 + i)), "iterator_arithmetic", "begin()+i / difference / comparison disagree for i=" << i);
+                        SIM_CHECK((*it).index() == i && it->index() == i, "iterator_deref", "*(begin()+i) or -> does not reach segment " << i);
+                        auto post = it++;
+                        SIM_CHECK(post->index() == i && (it - b0) == i + 1, "iterator_increment", "post-increment");
+                        auto pre = --it;
+                        SIM_CHECK(pre->index() == i && it->index() == i, "iterator_decrement", "pre-decrement");
+                        if (i > 0)
+                        {
+                            auto pd = it--;
+                            SIM_CHECK(pd->index() == i && it->index() == i - 1, "iterator_decrement", "post-decrement");
+                            ++it;
+                        }
+                        SIM_CHECK((e0 - it) == S - i && (it == e0) == false, "iterator_arithmetic", "end()-it");
+                        SIM_CHECK(same_bits(it->startTime(), H.m.b[i]) && same_bits((*it).endTime(), H.m.b[i + 1]), "iterator_deref", "segment times through an iterator");
+                        double tq = pick_time(H.m, 3, i, 0.5);
+                        check_same(it->evaluate(tq - H.m.b[i], 0), eval_checked(H, tq, 0), "iterator->evaluate", "plain", tq, 0);
+                    }
                     break;
                 }
                 // local-time evaluation must equal global evaluation inside the piece
@@ -509,6 +530,16 @@ struct World
                 if (j == 0) check_same(a, b, "derivative-trajectory", "plain", t, dk);
                 else check_value(H.m, t, dk + j, a, "derivative-trajectory");
                 if (dk >= H.m.nc) ctx.count("probe.derivative_above_degree");
+                if ((o.I(4) & 4) && dk < H.m.nc)
+                {
+                    // the derivative of a derivative trajectory: compared with the definition (other arithmetic route)
+                    int d2 = 1 + (int)((o.I(3) & 1));
+                    Poly ddp = dp.derivative(d2);
+                    SIM_CHECK(ddp.isInitialized() && ddp.getNumSegments() == H.m.S() && ddp.getNumCoeffs() == std::max(1, H.m.nc - dk - d2), "derivative_shape",
+                              "derivative(" << d2 << ") of derivative(" << dk << ") has " << ddp.getNumCoeffs() << " coefficients, source " << H.m.nc);
+                    check_value(H.m, t, dk + d2, ddp.evaluate(t, 0), "derivative-of-derivative");
+                    ctx.count("probe.derivative_of_derivative");
+                }
                 break;
             }
             case OP_DERIV_KEEP:
@@ -798,7 +829,7 @@ inline Plan gen_plan(uint64_t seed, uint64_t index, Tier tier, int profile, int 
             o.d = {r.unit()};
             break;
         case OP_DERIV:
-            o.i = {(int64_t)r.below(kHandles), (int64_t)r.below(64), (int64_t)r.below(8), (int64_t)r.below(64), (int64_t)r.below(3)};
+            o.i = {(int64_t)r.below(kHandles), (int64_t)r.below(64), (int64_t)r.below(8), (int64_t)r.below(64), (int64_t)r.below(8)};
             o.d = {r.unit()};
             break;
         case OP_DERIV_KEEP: o.i = {(int64_t)r.below(kHandles), (int64_t)r.below(kHandles), (int64_t)r.below(12)}; break;
